@@ -328,8 +328,8 @@ fn law_string<A: App>(a: A::V, b: A::V, c: A::V) -> String {
 fn law_oracle<A: App>(s: &str, guard: bool, line: &str, rec: &mut Recorder) {
     for (i, ch) in s.chars().enumerate() {
         match ch {
-            'F' if guard => rec.check(false, &format!("semiring-law:{}@{}", LAWS[i], A::NAME), line),
-            'F' => rec.count(&format!("observation:{}-breaks-under-overflow@{}", LAWS[i], A::NAME)),
+            // both sides were computed and differ: a law violation, with or without overflow
+            'F' => rec.check(false, &format!("semiring-law:{}@{}", LAWS[i], A::NAME), line),
             'P' => {
                 // a panic is only acceptable when the guard (no overflow / operands in range) fails
                 rec.check(!guard, &format!("semiring-op-panicked:{}@{}", LAWS[i], A::NAME), line);
@@ -360,10 +360,6 @@ fn show_f64(x: f64) -> String { x.to_bits().to_string() }
 fn show_opt<V>(v: Option<V>, sh: impl Fn(V) -> String) -> String { v.map(sh).unwrap_or_else(|| "panic".into()) }
 fn in_unit(x: f64) -> bool { x >= 0.0 && x <= 1.0 }
 
-/// how `a + b` on u32 overflows in the build of `lattices` under test (probed on the real `Cost::mul`)
-fn ovf_mode() -> &'static str {
-    if Co::mul(U32WithInfinity::Finite(u32::MAX), U32WithInfinity::Finite(1)).is_none() { "panic" } else { "wrap" }
-}
 fn fin(v: U32WithInfinity) -> Option<u64> { match v { U32WithInfinity::Finite(n) => Some(n as u64), _ => None } }
 
 fn run_sr(args: &[&str], rec: &mut Recorder) -> Option<String> {
@@ -405,12 +401,12 @@ fn run_sr(args: &[&str], rec: &mut Recorder) -> Option<String> {
             rec.check(r == want, "sr-value:add@Cost", &args.join(" "));
             show_cost(r)
         }
-        ["co", "mul", a, b, ovf] => {
-            if *ovf != "wrap" && *ovf != "panic" { return None; }
+        ["co", "mul", a, b] => {
             let (a, b) = (parse_cost(a)?, parse_cost(b)?);
             let r = catch(move || { let mut x = Cost::new(a); x.mul(Cost::new(b)); x.verif_get() }).ok();
             match (fin(a), fin(b)) {
-                (Some(p), Some(q)) if p + q > m => rec.count(&format!("observation:cost-mul-overflow:{}", if r.is_some() { "wraps" } else { "panics" })),
+                // a cost that does not fit in u32 must not be answered with some other finite cost (F91: `+` wrapped in release)
+                (Some(p), Some(q)) if p + q > m => { rec.check(r.is_none(), "sr-value:mul-overflow@Cost", &args.join(" ")); rec.count("sr:co:mul-overflow") }
                 (Some(p), Some(q)) => rec.check(r == Some(U32WithInfinity::Finite((p + q) as u32)), "sr-value:mul@Cost", &args.join(" ")),
                 _ => rec.check(r == Some(U32WithInfinity::Infinity), "sr-value:mul@Cost", &args.join(" ")),
             }
@@ -456,11 +452,10 @@ fn run_srlaw(args: &[&str], line: &str, rec: &mut Recorder) -> Option<String> {
             law_oracle::<Mu>(&s, guard, line, rec);
             s
         }
-        ["co", a, b, c, ovf] => {
-            if *ovf != "wrap" && *ovf != "panic" { return None; }
+        ["co", a, b, c] => {
             let (a, b, c) = (parse_cost(a)?, parse_cost(b)?, parse_cost(c)?);
             let s = law_string::<Co>(a, b, c);
-            // Cost::mul is a bare `+` on u32: the laws are claimed under "no overflow" only
+            // Cost::mul is a checked `+` on u32: it may panic (only) when the finite costs do not add up within u32
             let f = |v| fin(v).unwrap_or(0) as u128;
             let guard = f(a) + f(b) + f(c) <= m;
             law_oracle::<Co>(&s, guard, line, rec);
@@ -881,7 +876,6 @@ fn gen_random(rng: &mut Rng, thorough: bool) -> (String, Vec<String>) {
         }
         14 => {
             // semiring applications
-            let ovf = ovf_mode();
             for _ in 0..6 {
                 let app = *rng.pick(&["bt", "mu", "mu", "co", "co", "cs", "cs", "fz"]);
                 let v = |rng: &mut Rng| match app {
@@ -891,10 +885,9 @@ fn gen_random(rng: &mut Rng, thorough: bool) -> (String, Vec<String>) {
                     _ => f64_pool(rng).to_bits().to_string(),
                 };
                 let (a, b, c) = (v(rng), v(rng), v(rng));
-                let sfx = if app == "co" { format!(" {ovf}") } else { String::new() };
-                ls.push(format!("srlaw {app} {a} {b} {c}{sfx}"));
+                ls.push(format!("srlaw {app} {a} {b} {c}"));
                 ls.push(format!("sr {app} add {a} {b}"));
-                ls.push(format!("sr {app} mul {b} {c}{sfx}"));
+                ls.push(format!("sr {app} mul {b} {c}"));
             }
             ls.push(format!("sr {} zero", rng.pick(&["bt", "mu", "co", "cs", "fz"])));
             ls.push(format!("sr {} one", rng.pick(&["bt", "mu", "co", "cs", "fz"])));
@@ -923,8 +916,9 @@ fn gen_random(rng: &mut Rng, thorough: bool) -> (String, Vec<String>) {
             ls.push("cp 5 I".into());
             ls.push("cp x I".into());
             ls.push("sr mu add 4294967296 1".into());
-            ls.push("sr co mul 1 1".into());
-            ls.push("sr co mul 1 1 sat".into());
+            ls.push("sr co mul 1".into());
+            ls.push("sr co mul 1 1 wrap".into());
+            ls.push("srlaw co 1 2 3 panic".into());
             ls.push("sr bt add 2 1".into());
             ls.push("srlaw qq 1 2 3".into());
             ls.push("hello".into());
